@@ -291,8 +291,14 @@ pub fn run(cfg: &Cfg, sink: &Arc<Sink>) -> Report {
     let cli_globs: Vec<Vec<usize>> = if thorough { glob_sets.iter().cloned().chain([vec![11]]).collect() } else { subsets_up_to(LIB_GLOBS, 1).into_iter().chain([vec![1, 3], vec![2, 5], vec![0, 6], vec![11]]).collect() };
     let cli_ignores: Vec<Vec<usize>> = vec![vec![], vec![3], vec![2], vec![6], vec![1, 5], vec![7], vec![8], vec![9], vec![10]];
     let mut cases = Vec::new();
+    let quick_globs: Vec<Vec<usize>> = subsets_up_to(LIB_GLOBS, 1).into_iter().chain([vec![1, 3], vec![2, 5], vec![0, 6], vec![11]]).collect();
     for tree in &trees {
         for globs in &cli_globs {
+            // Thorough: the 816 three-path trees go with the quick tier's glob sets, everything
+            // else with every glob set.
+            if thorough && tree.len() == 3 && !quick_globs.contains(globs) {
+                continue;
+            }
             for (ii, ignores) in cli_ignores.iter().enumerate() {
                 // Quick: the full tree (18 paths, a dozen directories to start from) goes with four
                 // of the ignore sets; the small trees with all of them.
